@@ -272,6 +272,9 @@ func runC03(tier string, seed uint64) {
 					s.walk(b, "", "", mk, true, len(keys)+1)
 				}
 				s.walk(b, "docs/", "/", 1, true, len(keys)+1)
+				// ... and from a start-after that is resent next to every continuation token, as SDK paginators do
+				s.walkFrom(b, "", "", 1, true, len(keys)+1, keys[0][:1])
+				s.walkFrom(b, "", "", 2, true, len(keys)+1, "!")
 			}
 			// delete everything again (mem: versioned, so remove every version for a clean slate)
 			for _, k := range nested {
